@@ -5,15 +5,18 @@ from .. import lib, pdbtext as pt
 
 PID = "C09"
 TIERS = {
-    "quick":    dict(mc="MC_PdbText_4.cfg", tables=240, split=40, batch=100000),
+    "quick":    dict(mc="MC_PdbText_4.cfg", tables=280, split=40, batch=100000),
     "thorough": dict(mc="MC_PdbText_5.cfg", tables=8000, split=1000, batch=4000),
 }
 LEVEL = "model_checking"
 
 
 def _cases(tables, paths, seed):
+    # a blank chain identifier exists only in PDB text: such tables take the PDB -> PDB paths only
+    def ok(t, p):
+        return "cif" not in p or all(a["chain"] != "" for a in t["atoms"])
     return [{"id": f"{t['tid']}:{p}", "tid": t["tid"], "path": p, "atoms": t["atoms"], "seed": seed}
-            for t in tables for p in paths]
+            for t in tables for p in paths if ok(t, p)]
 
 
 MC_RUNS = (
@@ -30,6 +33,10 @@ MC_RUNS = (
      "as implemented: write_cif copies the PDB charge text, the integer-typed column reads it as NA"),
     ("MC_PdbText_asimpl_charge_exact.cfg", None, False,
      "as implemented write_cif: the deviation ChargeLostOnCrossPath describes the cross paths exactly"),
+    ("MC_PdbText_blank.cfg", None, False,
+     "tables whose second chain has a BLANK identifier (PDB -> PDB path): the TER record keeps its chain column"),
+    ("MC_PdbText_asimpl_terblank.cfg", "InvLayout80", True,
+     "as first implemented: the TER record of a blank chain is written without its chain column (repaired in c549bbf)"),
 )
 ACTIONS = ("EmitModel", "EmitAtom", "EmitTer", "EmitEndmdl", "EmitEnd", "ReadPdb", "WriteCif", "ReadCif", "Finish")
 
